@@ -147,6 +147,30 @@ pub struct TimeCase {
   /// decided - plus the rule that claims handed back by a successful parse never show an expired exp / a future nbf.
   #[serde(default)]
   pub dup: Option<(u8, TimeVal, bool)>,
+  /// the member names exp / nbf are written with JSON escapes (same names to every JSON reader):
+  /// 1 first letter as \\u00XX, 2 middle letter, 3 all letters, 4 all letters with upper-case hex digits
+  #[serde(default)]
+  pub escaped_names: u8,
+  /// the parser also expects a custom number claim (`check_claim(("seats", 4))`) and has just refused another
+  /// authentic token for carrying another value; the token of this case carries the expected one
+  #[serde(default)]
+  pub after_failed_check: bool,
+}
+
+fn written_name(name: &str, how: u8) -> String {
+  let esc = |c: char, upper: bool| if upper { format!("\\u{:04X}", c as u32) } else { format!("\\u{:04x}", c as u32) };
+  let body: String = name
+    .chars()
+    .enumerate()
+    .map(|(i, c)| match how % 5 {
+      1 if i == 0 => esc(c, false),
+      2 if i == 1 => esc(c, false),
+      3 => esc(c, false),
+      4 => esc(c, true),
+      _ => c.to_string(),
+    })
+    .collect();
+  format!("\"{}\"", body)
 }
 
 pub struct DefaultTimeRules {
@@ -240,7 +264,16 @@ impl Sub for DefaultTimeRules {
     if let Some((which, _, (Some(v), _), false)) = &dup {
       members.push((if *which == 0 { "exp" } else { "nbf" }.to_string(), v.clone()));
     }
-    let payload = format!("{{{}}}", members.iter().map(|(k, v)| format!("{}:{}", Value::String(k.clone()), v)).collect::<Vec<_>>().join(","));
+    if c.after_failed_check {
+      members.push(("seats".into(), json!(4)));
+    }
+    let payload = format!(
+      "{{{}}}",
+      members.iter().map(|(k, v)| format!("{}:{}", if c.escaped_names % 5 != 0 && (k == "exp" || k == "nbf") { written_name(k, c.escaped_names) } else { Value::String(k.clone()).to_string() }, v)).collect::<Vec<_>>().join(",")
+    );
+    if c.escaped_names % 5 != 0 && (exp.is_some() || nbf.is_some()) {
+      cl.tag("member-names-written-with-escapes");
+    }
     let km = keys::material(p, &gen::arr32(&c.seed));
     let lk = km.lib().expect("valid key");
     let token = match core_build(&lk, &[3u8; 32][..if p == Proto::V2L { 24 } else { 32 }], &payload, c.footer.as_deref(), None) {
@@ -268,9 +301,17 @@ impl Sub for DefaultTimeRules {
       (2, _, Some(Value::String(s))) => Some(ClaimSpec::NbfOwned(s.clone())),
       _ => None,
     };
+    let seats_spec = ClaimSpec::Custom("seats".into(), json!(4));
+    let other_token = if c.after_failed_check { core_build(&lk, &[5u8; 32][..if p == Proto::V2L { 24 } else { 32 }], "{\"seats\":5}", c.footer.as_deref(), None).ok() } else { None };
     let mut parser = new_parser(p, Layer::Prelude);
     if let Some(f) = c.footer.as_deref() {
       parser.footer(f);
+    }
+    if let Some(other) = &other_token {
+      if parser.check(&seats_spec).is_ok() {
+        let refused = parser.parse(other, &lk);
+        cl.tag(if refused.is_err() { "after-a-refused-token" } else { "after-an-accepted-token" });
+      }
     }
     if let Some(spec) = &check_spec {
       if parser.check(spec).is_ok() {
@@ -440,13 +481,13 @@ fn dup(for_exp_only: bool) -> BoxedStrategy<Option<(u8, TimeVal, bool)>> {
 
 fn case(pid: &'static str, proto: Proto) -> BoxedStrategy<TimeCase> {
   let (e, n): (BoxedStrategy<TimeVal>, BoxedStrategy<TimeVal>) = if pid == "C11" { (time_val(true), Just(TimeVal::Absent).boxed()) } else { (prop_oneof![3 => Just(TimeVal::Absent), 2 => past(), 3 => future(), 1 => not_a_timestamp().prop_map(TimeVal::NotATimestamp), 1 => Just(TimeVal::Null)].boxed(), time_val(false)) };
-  (gen::bytes32(), e, n, extras(), prop_oneof![Just(None), Just(Some("f".to_string()))], prop_oneof![4 => Just(0u8), 1 => Just(1u8), 1 => Just(2u8)], dup(pid == "C11")).prop_map(move |(seed, exp, nbf, extra, footer, also_check, dup)| TimeCase { proto, seed, exp, nbf, extra, footer, also_check, dup }).boxed()
+  (gen::bytes32(), e, n, extras(), prop_oneof![Just(None), Just(Some("f".to_string()))], prop_oneof![4 => Just(0u8), 1 => Just(1u8), 1 => Just(2u8)], dup(pid == "C11"), prop_oneof![5 => Just(0u8), 1 => 1u8..5], prop_oneof![5 => Just(false), 1 => Just(true)]).prop_map(move |(seed, exp, nbf, extra, footer, also_check, dup, escaped_names, after_failed_check)| TimeCase { proto, seed, exp, nbf, extra, footer, also_check, dup, escaped_names, after_failed_check }).boxed()
 }
 
 /// deterministic grid: every UTC offset hour -23..=23 (+ :59) x fractional digits x {past, future} near the boundary margins
 fn grid(pid: &'static str, proto: Proto) -> Vec<TimeCase> {
   let mut out = vec![];
-  let mk = |exp: TimeVal, nbf: TimeVal| TimeCase { proto, seed: vec![5u8; 32], exp, nbf, extra: vec![("sub".into(), json!("grid"))], footer: None, also_check: 0, dup: None };
+  let mk = |exp: TimeVal, nbf: TimeVal| TimeCase { proto, seed: vec![5u8; 32], exp, nbf, extra: vec![("sub".into(), json!("grid"))], footer: None, also_check: 0, dup: None, escaped_names: 0, after_failed_check: false };
   for h in -23i16..=23 {
     for (mi, digits) in [(0i16, 0u8), (59, 3), (30, 9)] {
       let off = h * 60 + if h < 0 { -mi } else { mi };
